@@ -221,3 +221,46 @@ Proof. vm_compute. repeat split; reflexivity. Qed.
 Example C01_idempotent_example :
   syscalls (v_log (mview ex_cfg (v_after v_good) ex_env d1 [])) = [].
 Proof. vm_compute. reflexivity. Qed.
+
+(* ------------------------------------------------------------------ (e) refuted without "layer definitions unchanged" *)
+(* the exports directory IS the layers directory, the package-export subdirectory is called
+   "d1" and the root layer is called "layerconfig": its automated package-export link is
+   /b/layers/d1/layerconfig -- the configuration file of layer d1, here a symbolic link to
+   /cfgA.  The first `mount d1` (one call, the overlay; ROk) ends with makeExportSymlinks, which
+   repoints that link to /b/layers/layerconfig/packages, a file that reads like a layer
+   configuration with one more import.  The second `mount d1` therefore has a new import to
+   mount and issues a call.  Every path is clean and absolute, the file tree is a tree. *)
+Definition cfg_e : cfgT :=
+  MkCfg (bs "/b") (bs "/b/layers") (bs "build") (bs "packages") (bs "generated")
+        (bs "overlayfs/workdir") (bs "overlayfs/upperdir") (bs "/b/layers") (bs "d1") (bs "generated").
+Definition fs_e : fsT :=
+  dirs ["/"; "/b"; "/b/layers"; "/src";
+        "/b/layers/layerconfig"; "/b/layers/layerconfig/build";
+        "/b/layers/layerconfig/build/bin"; "/b/layers/layerconfig/build/etc"; "/b/layers/layerconfig/build/lib";
+        "/b/layers/layerconfig/build/opt"; "/b/layers/layerconfig/build/root"; "/b/layers/layerconfig/build/sbin";
+        "/b/layers/layerconfig/build/usr";
+        "/b/layers/d1"; "/b/layers/d1/build"; "/b/layers/d1/overlayfs";
+        "/b/layers/d1/overlayfs/workdir"; "/b/layers/d1/overlayfs/upperdir";
+        "/b/layers/d1/build/bin"; "/b/layers/d1/build/etc"; "/b/layers/d1/build/lib";
+        "/b/layers/d1/build/opt"; "/b/layers/d1/build/root"; "/b/layers/d1/build/sbin";
+        "/b/layers/d1/build/usr"; "/b/layers/d1/build/mnt"]%string
+  ++ [(bs "/b/default_layerconfig.skel", File []);
+      (bs "/b/layers/layerconfig/layerconfig", File []);
+      (bs "/cfgA", File (bs "base layerconfig" ++ nlb));
+      (bs "/b/layers/d1/layerconfig", Link (bs "/cfgA"));
+      (bs "/b/layers/layerconfig/packages",
+       File (bs "base layerconfig" ++ nlb ++ bs "import bind /src /mnt" ++ nlb))].
+Definition w_e : wobs := MkWO fs_e ks0.
+Definition v_e : sview := mview cfg_e w_e ex_env d1 [].
+Definition v_e2 : sview := mview cfg_e (v_after v_e) ex_env d1 [].
+Example C01_idempotent_refuted_config_rewritten :
+  plain_env ex_env = true
+  /\ wf_cfg cfg_e = true
+  /\ nodup_paths (map fst fs_e) = true
+  /\ wf_table (ks_tab (wo_ks w_e)) = true
+  /\ v_res v_e = ROk
+  /\ length (syscalls (v_log v_e)) = 1%nat
+  /\ lmap_beq (layers_on_disk cfg_e (wo_fs (v_after v_e))) (layers_on_disk cfg_e (wo_fs w_e)) = false
+  /\ v_res v_e2 = ROk
+  /\ mount_targets (syscalls (v_log v_e2)) = [bs "/b/layers/d1/build/mnt"].
+Proof. vm_compute. repeat split; reflexivity. Qed.
